@@ -5,7 +5,7 @@ import (
 	"os"
 )
 
-var allEncNames = []string{"I8", "I16", "I32", "I64", "U16", "U32", "U64", "Int", "S16", "B3", "TE", "Dummy"}
+var allEncNames = []string{"I8", "I16", "I32", "I64", "U16", "U32", "U64", "Int", "S16", "RAW", "B3", "TE", "Dummy"}
 
 // randOpt picks one of the 16 boolean combinations, or (1 in 4) a raw
 // combination with nil pointers.
